@@ -14,6 +14,7 @@
 -/
 import Dlismodel.Proofs.Eflr
 import Dlismodel.Proofs.Convert
+import Dlismodel.Proofs.Defaults
 namespace Dlis.C05
 open Dlis
 
@@ -373,5 +374,46 @@ example : (setValue (AttrSpec.mk (.numeric false) none true true true numericCod
       (.list [.int 3, .list [.float 0x4004000000000000, .bool true]])).toOption.map (·.value) =
     some (.list [.float 0x4008000000000000, .list [.float 0x4004000000000000, .float 0x3FF0000000000000]]) := by
   rfl
+
+end Dlis.C05
+
+/-
+  C05, write-time defaults (`Model/Defaults.lean`): "the only additions are the documented write-time defaults" —
+  a default or a derived value fills an attribute only where the user assigned nothing, and what is derived is
+  consistent with the values.
+-/
+namespace Dlis.C05
+open Dlis
+
+/-- a DIMENSION the user assigned to a parameter / computation / calibration measurement is never replaced -/
+theorem assigned_dimension_kept {d : List Nat} {v : PyVal} {r : Option (List Nat)}
+    (h : checkOrSetDim (some d) v = .ok r) : r = some d := checkOrSetDim_keeps h
+
+/-- a derived DIMENSION is the per-value shape of the values (or [1] for scalar values) -/
+theorem derived_dimension_is_shape {dim r : Option (List Nat)} {v : PyVal} (hv : v ≠ .none)
+    (h : checkOrSetDim dim v = .ok r) : ∃ sh, shapeV v = some sh ∧ r = some (dimOfShape sh) :=
+  checkOrSetDim_consistent hv h
+
+theorem parameter_dimension_kept {single : Bool} {values : PyVal} {zc : Option Nat} {d : List Nat}
+    {axes : Option (List (Option Nat))} {r : Option (List Nat)} (hd : d ≠ [])
+    (h : paramDefaults single values zc (some d) axes = .ok r) : r = some d := paramDefaults_keeps hd h
+
+/-- a channel set up from its data: DIMENSION is the per-row shape; an ELEMENT-LIMIT the user assigned is kept as
+assigned and covers the dimension; one that was not assigned equals the dimension -/
+theorem channel_from_data {dimension limit : Option (List Nat)} {dim : List Nat} {d l : Option (List Nat)}
+    (h : channelFromData dimension limit dim = .ok (d, l)) :
+    d = some dim ∧ (truthyDim limit = true → l = limit ∧ limitCovers (limit.getD []) dim = true) ∧
+      (truthyDim limit = false → l = some dim) := channelFromData_spec h
+
+/-- the mutual default of DIMENSION and ELEMENT-LIMIT replaces neither when assigned -/
+theorem channel_defaults_keep {dimension limit d l : Option (List Nat)} (h : dimAndLimit dimension limit = .ok (d, l)) :
+    (truthyDim dimension = true → d = dimension) ∧ (truthyDim limit = true → l = limit) := dimAndLimit_keeps h
+
+/-- the field name is WILDCAT exactly when none was assigned -/
+theorem field_name_default (a : Option PStr) : originFieldName a = a.getD [87, 73, 76, 68, 67, 65, 84] := by
+  cases a <;> rfl
+
+example : channelFromData none (some [10]) [5] = .ok (some [5], some [10]) := by decide
+example : paramDefaults true (.list [.list [.int 1, .int 2], .list [.int 3, .int 4]]) (some 2) none none = .ok (some [2]) := by rfl
 
 end Dlis.C05
